@@ -249,6 +249,39 @@ def packets(rng, k, maxlen=6):
 # ------------------------------------------------------------------------------------------------
 # TLC behaviours -> bench scripts
 # ------------------------------------------------------------------------------------------------
+def receive_over_write_scripts(rng, quick):
+    """A receive beginning at every cycle offset of a control-translator register write (request, address phase,
+    data phase, STP, turn-around, the retried write): both start forms, 1 / 2 / 3+ bytes, with and without a
+    mid-packet RxCmd, two NXT-acceptance patterns of the PHY, one and two registers to write."""
+    out = []
+    t0 = 6
+    for start in ("up_nxt", "up_cmd"):
+        for off in range(0, 13):
+            variants = [(1, False, 0), (2, False, 1), (3, True, 0), (5, True, 1)]
+            if quick:                                   # rotate length/pattern over the offsets, all in thorough
+                variants = [variants[(off + k) % 4] for k in (0, 2)]
+            for nbytes, mid, slow in variants:
+                ch = [{"acc": True} for _ in range(t0 + off - 1)]
+                if slow:                                # PHY takes the link's bytes only every other cycle
+                    ch = [{"acc": t % 2 == 0} for t in range(t0 + off - 1)]
+                ep = [{"rx": "up_nxt"}] if start == "up_nxt" else [{"rx": "up"}, {"rx": "cmd", "b": 0x1D}]
+                if start == "up_nxt" and nbytes == 5:
+                    ep.append({"rx": "cmd", "b": 0x1D})  # the optional RxCmd after the turn-around
+                for k in range(nbytes):
+                    if mid and k == nbytes // 2:
+                        ep.append({"rx": "cmd", "b": 0x1E})
+                    ep.append({"rx": "data", "b": rng.choice([0xA5, 0x1D, rng.randrange(256)])})
+                if rng.random() < 0.5:
+                    ep.append({"rx": "cmd", "b": 0x0D})
+                ep.append({"rx": "down"})
+                ch += [dict(c, acc=True) for c in ep] + [{"acc": (t % 2 == 0) or not slow} for t in range(40)]
+                ctrl = {t0: {"opm": 1, "idpu": 1} if (off + nbytes) % 2 else {"opm": 1}}
+                out.append(({"n": len(ch), "choices": ch, "ctrl": ctrl, "phy": {"max_stall": 2}},
+                            {"class": "clean", "origin": "receive-over-register-write",
+                             "start": start, "offset": off, "bytes": nbytes, "mid_rxcmd": mid}))
+    return out
+
+
 def script_from_rx_behaviour(beh):
     """MCUlpiRx behaviour: `in` = [dir, nxt, di] per cycle -> PHY choices (choice t decides cycle t+1)."""
     ins = [st["in"] for _, st in beh[1:]]
@@ -570,23 +603,26 @@ def check_C22(rep):
 
     scripts = []
     # 2a. TLC-simulated Env behaviours, clean (spec -> code)
-    cfg = tlc.render_cfg(_cfg("MCUlpiRx.cfg.tmpl"), {"AllowKF": "FALSE", "DataBytes": RX_MC_DATA,
+    cfg = tlc.render_cfg(_cfg("MCUlpiRx.cfg.tmpl"), {"AllowKF": "TRUE", "DataBytes": RX_MC_DATA,
                                                      "RxCmdBytes": RX_MC_CMDS, "MaxPkts": 3, "MaxLen": 3,
                                                      "MaxReads": 0})
     behs = tlc.simulate(SPEC_DIR, "MCUlpiRx", cfg, num=150 if quick else 1500, depth=30, seed=rep.seed * 11 + 22)
     for b in behs:
         s = script_from_rx_behaviour(b)
-        s["phy"] = {"clean_rx": True}
+        s["phy"] = {"clean_rx": False}
         scripts.append((s, {"class": "clean", "origin": "tlc-simulate"}))
     # 2b. random receive schedules beyond the model's bounds, interleaved with transmits (NXT with DIR low)
     for k in range(40 if quick else 400):
         n = 240 if quick else 400
         s = {"n": n, "choices": phy_choices(rng, n, rx_rate=rng.choice([0.05, 0.1, 0.2]),
-                                            acc_p=rng.choice([0.5, 1.0]), clean=True, maxlen=rng.choice([3, 8, 20])),
-             "phy": {"clean_rx": True, "max_stall": 3}}
+                                            acc_p=rng.choice([0.5, 1.0]), clean=False, maxlen=rng.choice([3, 8, 20])),
+             "phy": {"clean_rx": False, "max_stall": 3}}
         if k % 2:
             s["packets"] = packets(rng, 6, 5)
             s["starts"] = set(rng.sample(range(2, n - 30), 6))
+        if k % 3 == 0:          # register writes (control changes at random instants) concurrent with the receives
+            s["ctrl"] = {t: ctrl_change(rng) for t in rng.sample(range(2, n - 30), 6)}
+            s["gate_tx"] = True
         scripts.append((s, {"class": "clean", "origin": "random"}))
     # 2c. witnesses of the two open findings
     def C(b):
@@ -611,9 +647,15 @@ def check_C22(rep):
         scripts.append(({"n": len(ch), "choices": ch, "ctrl": {3 + k: {"opm": 1}}},
                         {"class": "witness", "origin": "directed-rxcmd-during-register-write"}))
 
+    # 2c'. a receive beginning at every cycle offset of a register write (the PHY aborts the write; the link retries)
+    scripts += receive_over_write_scripts(rng, quick)
+
     items = run_scripts(rep, scripts)
     for trace, meta in items:
         rx_nontriv(rep, trace)
+        if meta["origin"] == "receive-over-register-write":
+            k = next((i for i, r in enumerate(trace) if r["dir"]), 0)
+            rep.nontriv(("rx_over_write", meta["start"], trace[k]["do"] >> 6, trace[k]["stp"], trace[max(0, k - 1)]["nxt"]))
     cfg = tlc.render_cfg(_cfg("UlpiRxTrace.cfg.tmpl"), {"CheckStream": "TRUE"})
     validate(rep, "UlpiRxTrace", cfg, items, classify_rx)
 
@@ -624,8 +666,8 @@ def check_C22(rep):
         cscripts = []
         for k in range(3 if quick else 25):
             n = 200
-            sc = {"n": n, "choices": phy_choices(rng, n, rx_rate=0.15, acc_p=1.0, clean=True, maxlen=8),
-                  "phy": {"clean_rx": True, "max_stall": 3},
+            sc = {"n": n, "choices": phy_choices(rng, n, rx_rate=0.15, acc_p=1.0, clean=False, maxlen=8),
+                  "phy": {"clean_rx": False, "max_stall": 3},
                   "resets": set(rng.sample(range(10, n - 30), 2)) if has_rst(config) else set()}
             cscripts.append((sc, {"class": "clean", "origin": "config-sweep", "config": name}))
         citems = run_scripts(rep, cscripts, config)
@@ -691,7 +733,7 @@ def tx_script(rng, n, npk, maxlen, opms, acc_p, rx_rate, max_stall=3):
             ctrl[max(1, t - rng.randint(1, 6))] = {"opm": rng.choice(opms)}
     return {"n": n, "choices": phy_choices(rng, n, rx_rate=rx_rate, acc_p=acc_p, clean=True),
             "packets": pk, "starts": set(starts), "ctrl": ctrl, "ctrl0": {"opm": rng.choice(opms)},
-            "phy": {"max_stall": max_stall, "clean_rx": True}, "gate_ctrl": "tx_idle", "gate_tx": True}
+            "phy": {"max_stall": max_stall, "clean_rx": False}, "gate_ctrl": "tx_idle", "gate_tx": True}
 
 
 def check_C23(rep):
@@ -730,7 +772,7 @@ def check_C23(rep):
         for k, t in enumerate(starts[1:]):
             ctrl[max(1, t - 2)] = {"opm": opms[k + 1]}
         scripts.append(({"n": len(ch) + 60, "choices": ch, "packets": pk, "starts": set(starts), "ctrl": ctrl,
-                         "ctrl0": {"opm": opms[0]}, "phy": {"max_stall": 3, "clean_rx": True},
+                         "ctrl0": {"opm": opms[0]}, "phy": {"max_stall": 3, "clean_rx": False},
                          "gate_ctrl": "tx_idle", "gate_tx": True}, {"class": "clean", "origin": "tlc-simulate"}))
     # code -> spec: random schedules beyond the bounds
     for k in range(40 if quick else 400):
@@ -807,7 +849,7 @@ def reg_script(rng, n, clean, maxlen=5, max_stall=2):
     s = {"n": n, "choices": phy_choices(rng, n, rx_rate=rng.choice([0.0, 0.03, 0.08]), acc_p=rng.choice([0.4, 0.7, 1.0]),
                                         clean=True, maxlen=4),
          "ctrl": ctrl, "packets": packets(rng, rng.randint(0, 5), maxlen),
-         "starts": set(rng.sample(range(2, n - 50), 8)), "phy": {"max_stall": max_stall, "clean_rx": True},
+         "starts": set(rng.sample(range(2, n - 50), 8)), "phy": {"max_stall": max_stall, "clean_rx": False},
          "ctrl0": rng.choice([{}, {"xcvr": 0, "dppd": 0}, {"opm": 1}, {"extvbus": 1, "term": 1}])}
     if clean:
         s["gate_ctrl"] = "converged"
@@ -903,6 +945,8 @@ def check_C24(rep):
             ch[7 + off] = dict(ch[7 + off], rx="down")
             scripts.append(({"n": 70, "choices": ch, "ctrl": {5: {"opm": 1, "idpu": 1}}, "phy": {"max_stall": max_stall}},
                             {"class": "clean", "origin": "directed-dir-sweep"}))
+    # a USB receive beginning at every cycle offset of a register write: the write is aborted and must be retried
+    scripts += receive_over_write_scripts(rng, quick)
     # control: the same shapes spaced out are clean
     scripts.append(({"n": 120, "choices": idle + [N()] * 30, "ctrl": {3: {"opm": 2}, 30: {"opm": 1}, 60: {"idpu": 1, "opm": 0}},
                      "packets": [[0xC3, 0x11, 0x22]], "starts": {90}}, {"class": "clean", "origin": "directed"}))
